@@ -125,6 +125,34 @@ func (s *Scratch) Build(pkg, out string, extra ...string) error {
 }
 
 // Vet runs go vet on packages of the scratch module and returns its output on failure.
+var errLine = regexp.MustCompile(`(?m)^([^\s:]+\.go):\d+:\d+: `)
+
+// BuildChecked is Build for a driver compiled next to regenerated code.  When the build fails and
+// every compile error lies in a file written by the generator under check (oas_*_gen.go), the
+// tree under check turned a valid spec into a package that does not compile: whatever the check
+// wanted to observe about the generated code does not exist, which is reported as a violation of
+// the property (not as a harness error) and ends the run.  Any other build failure stays fatal.
+func (s *Scratch) BuildChecked(r *vf.Run, pkg, out string, extra ...string) {
+	err := s.Build(pkg, out, extra...)
+	if err == nil {
+		return
+	}
+	ms := errLine.FindAllStringSubmatch(err.Error(), -1)
+	gen := len(ms) > 0
+	for _, m := range ms {
+		b := filepath.Base(m[1])
+		if !(strings.HasPrefix(b, "oas_") && strings.HasSuffix(b, "_gen.go")) {
+			gen = false
+		}
+	}
+	if !gen {
+		vf.Fatal("%v", err)
+	}
+	r.Violation(map[string]string{"class": "regenerated-code-does-not-compile"}, 0, map[string]any{"build_output": tail(err.Error(), 1500)})
+	r.NotExhaustive("the package regenerated from the check's spec does not compile; nothing was driven")
+	r.Finish("the package regenerated from the check's spec does not compile; nothing was driven")
+}
+
 func (s *Scratch) Vet(pkgs ...string) error {
 	cmd := s.goCmd(append([]string{"vet"}, pkgs...)...)
 	var buf bytes.Buffer
